@@ -184,13 +184,96 @@ def rule_panic(c, prog, g, dreach):
                 c.violation(R, "deserialize_properties|wildcard", "deserialize_properties: the `unimplemented!()` arm over DataType is reachable", core.loc(s["node"]), instance="deserialize_properties:dead-wildcard")
 
 
+def _callers_of(prog, fn):
+    out = []
+    for g_ in prog.lib_fns():
+        if g_.body is None:
+            continue
+        for x in core.walk_fn(g_):
+            if x.get("k") == "Call" and (core.callee(x) or "") == fn.path:
+                out.append((g_, x))
+    return out
+
+
+def caller_established_len(prog, fn, pidx):
+    """length of the slice parameter `pidx` of a PRIVATE free function, as a polynomial over the function's own
+    symbols (lengths of its other parameters, const generics), when every call site hands it a `vec![_; size]` of the
+    caller that is never resized and `size`, rewritten from the caller's names to the callee's, is the same polynomial
+    everywhere — `deinterleave(&buffer, output)` with `buffer = vec![0; output.len() * N]` gives len(output) * N"""
+    from sa import algebra
+    from sa.algebra import Poly, NotAffine
+    if prog is None or (fn.d.get("vis") or "").startswith("Public") or fn.dk not in ("Fn",):
+        return None
+    calls = _callers_of(prog, fn)
+    if not calls:
+        return None
+    result = None
+    for g_, cl in calls:
+        if pidx >= len(cl["args"]):
+            return None
+
+        def symfn(n):
+            if n.get("k") == "MethodCall" and n["m"] == "len" and not n["args"]:
+                lid, path = core.place_root_lid(n["recv"])
+                if lid is not None and not [p_ for p_ in path if not p_.startswith(".")]:
+                    return Poly.sym(f"len{lid}")
+            if n.get("k") == "Path" and n.get("res") == "ConstParam":
+                return Poly.sym("N:" + (n.get("def") or "").rsplit("::", 1)[-1])
+            return None
+        try:
+            ln = algebra.LoopNest(g_, symfn)
+            ln.run(g_.body)
+        except NotAffine:
+            return None
+        lid, path = core.place_root_lid(cl["args"][pidx])
+        if lid is None or [p_ for p_ in path if p_ not in ("&", "*")] and path:
+            if lid is None:
+                return None
+        st = bounds.all_lets(g_).get(lid)
+        if st is None:
+            return None
+        init = core.strip(st["init"])
+        if not (init.get("k") == "Call" and init["f"].get("def") == "alloc::vec::from_elem" and len(init["args"]) == 2 and bounds.vec_never_resized(g_, lid)):
+            return None
+        try:
+            size = algebra.poly_eval(init["args"][1], ln.env, symfn)
+        except NotAffine:
+            return None
+        # caller symbols -> callee symbols, through the arguments that are plain locals / parameters
+        ren = {}
+        for k_, a in enumerate(cl["args"]):
+            alid, apath = core.place_root_lid(a)
+            if alid is not None and k_ < len(fn.params) and fn.params[k_].get("lid") is not None:
+                ren[f"len{alid}"] = f"len{fn.params[k_]['lid']}"
+        d = {}
+        for mono, coef in size.d.items():
+            nm = []
+            for sname in mono:
+                if sname.startswith("N:"):
+                    nm.append(sname)
+                elif sname in ren:
+                    nm.append(ren[sname])
+                else:
+                    return None
+            d[tuple(sorted(nm))] = d.get(tuple(sorted(nm)), 0) + coef
+        size2 = Poly(d)
+        if result is None:
+            result = size2
+        elif result != size2:
+            return None
+    return result
+
+
 def param_dim(fn, root, depth):
     """length of dimension `depth` of a slice / array-of-arrays parameter, as a polynomial symbol"""
     from sa.algebra import Poly
-    for prm in fn.params:
+    for pidx, prm in enumerate(fn.params):
         if prm.get("lid") == root:
             ty = (prm.get("ty") or "").lstrip("&").replace("mut ", "").strip()
             if depth == 0 and ty.startswith("["):
+                est = caller_established_len(bounds.PROG, fn, pidx)
+                if est is not None:
+                    return est
                 return Poly.sym(f"len{root}")
             m = re.match(r"^\[\[.*; (\w+)\]\]$", ty)
             if depth == 1 and m:
@@ -461,6 +544,13 @@ def rule_ovf(c, prog, g, dreach):
                         break
             if why is None:
                 why = OVF_DISCHARGED.get((fn.path, op, "*"))
+            if why is None and not (fn.d.get("vis") or "").startswith("Public") and fn.dk == "Fn":
+                # a private helper carved out of functions whose arithmetic of this kind is discharged: the same bound
+                # holds for the values they hand it
+                cs = {g_.path for g_, _x in _callers_of(prog, fn)}
+                ws = [OVF_DISCHARGED.get((p_, op, "*")) for p_ in cs]
+                if cs and all(ws):
+                    why = "via " + ", ".join(sorted(cs)) + ": " + ws[0]
             inst = f"{fn.path}|overflow:{op}"
             if why:
                 c.ok(R, inst)
